@@ -218,6 +218,12 @@ def rule_R1(body, log):
                     if e2 < n and toks[e2][1] == ';':
                         e = e2
                     log.append({'rule': 'R1', 'dropped': norm(join(toks[i:e + 1]))[:100]})
+                    # a macro that was the whole expression of a match arm (`pat => warn!(..),`) leaves `{}`
+                    p2 = len(out) - 1
+                    while p2 >= 0 and out[p2][0] in TRIVIA:
+                        p2 -= 1
+                    if p2 >= 0 and out[p2][1] == '=>' and toks[e][1] != ';':
+                        out.append(('x', '{}'))
                     i = e + 1
                     continue
         out.append(toks[i])
@@ -549,6 +555,8 @@ class Extract:
         self.after = []
         self.closures = {}
         self.lift = None
+        self.lift_async = None
+        self.lifted_contract = []
         self.novac = False
         self.derive = None
         self.attrs = []
@@ -658,6 +666,12 @@ def parse_template(path):
             elif key.startswith('lift-closure '):
                 m = re.match(r'lift-closure (\d+) as (.*)$', d)
                 cur.lift = (int(m.group(1)), m.group(2))
+            elif key.startswith('lift-async '):
+                m = re.match(r'lift-async (\d+) as (.*)$', d)
+                cur.lift_async = (int(m.group(1)), m.group(2))
+            elif key == 'lifted-contract':
+                cur.lifted_contract = []
+                target = cur.lifted_contract
             elif key == 'novac':
                 cur.novac = True
             elif key == 'derive':
@@ -747,6 +761,80 @@ def render_extract(ex, vac=False, strip_proof=False):
         log[-1]['reason'] = why
     for a, b in ex.letty:
         body = letty_replace(body, a, b, log)
+    lifted_fn_text = ''
+    if ex.lift is not None:
+        # R6a: lambda-lift closure k: the item emitted is `fn NAME(PARAMS) -> RET { closure body }` instead of the
+        # enclosing function (which is out of reach); captured variables become the extra parameters listed
+        kidx, sig = ex.lift
+        toks = tokenize(body)
+        cl = find_closures(toks)
+        if kidx < 1 or kidx > len(cl):
+            raise Undecided('lift-closure: closure %d not found (%d closures)' % (kidx, len(cl)))
+        b0, b1 = cl[kidx - 1]
+        s_, e_ = closure_body_span(toks, b1)
+        inner = join(toks[s_:e_ + 1])
+        if toks[s_][1] != '{':
+            inner = '{ ' + inner + ' }'
+        log.append({'rule': 'R6', 'lifted_closure': kidx, 'of': name, 'closure_header': join(toks[b0:b1 + 1]), 'as': sig})
+        m_ = re.match(r'\s*([A-Za-z_][A-Za-z0-9_]*)', sig)
+        name = m_.group(1)
+        header = 'fn ' + sig + ('__vac' if False else '')
+        if vac:
+            header = 'fn ' + sig.replace(name, name + '__vac', 1)
+        body = inner
+        ex = __import__('copy').copy(ex)
+        ex.ret = None
+        ex.rename = None
+    if ex.lift_async is not None:
+        # R6b: lift the k-th `async move { .. }` block into an `async fn NAME(PARAMS) -> RET { .. }`; the block is
+        # replaced by a call `NAME(args)` (creating the same future: the captured variables are moved into it)
+        kidx, sig = ex.lift_async
+        toks = tokenize(body)
+        blocks = []
+        for i_, (k_, t_, _, _) in enumerate(toks):
+            if k_ == 'id' and t_ == 'async':
+                j_ = nontrivia(toks, i_)
+                if j_ < len(toks) and toks[j_][1] == 'move':
+                    j_ = nontrivia(toks, j_)
+                if j_ < len(toks) and toks[j_][1] == '{':
+                    blocks.append((i_, j_, match_close(toks, j_)))
+        if kidx < 1 or kidx > len(blocks):
+            raise Undecided('lift-async: async block %d not found (%d blocks)' % (kidx, len(blocks)))
+        a0, bo, bc = blocks[kidx - 1]
+        stoks = tokenize(sig)
+        si = 0
+        while stoks[si][0] in TRIVIA:
+            si += 1
+        lname = stoks[si][1]
+        sp = si + 1
+        while stoks[sp][1] != '(':
+            sp += 1
+        spc = match_close(stoks, sp)
+        params = join(stoks[sp + 1:spc])
+        ret = join(stoks[spc + 1:]).strip()
+        args = []
+        depth = 0
+        cur_ = ''
+        for ch in params:
+            if ch in '(<[':
+                depth += 1
+            elif ch in ')>]':
+                depth -= 1
+            if ch == ',' and depth == 0:
+                args.append(cur_)
+                cur_ = ''
+            else:
+                cur_ += ch
+        if cur_.strip():
+            args.append(cur_)
+        argnames = [a.split(':')[0].strip() for a in args]
+        is_method = re.search(r'\(\s*&?\s*(mut\s+)?self\b', header) is not None
+        call = ('Self::' if is_method else '') + lname + ('__vac' if vac else '') + '(' + ', '.join(argnames) + ')'
+        block_text = join(toks[bo:bc + 1])
+        lc = ('\n' + '\n'.join(ex.lifted_contract) + '\n    ') if ex.lifted_contract else ' '
+        lifted_fn_text = '\n    #[verifier::exec_allows_no_decreases_clause]\n    async fn %s%s(%s) %s%s%s\n' % (lname, '__vac' if vac else '', params, ret, lc, block_text)
+        body = body[:toks[a0][2]] + call + body[toks[bc][3]:]
+        log.append({'rule': 'R6', 'lifted_async_block': kidx, 'of': name, 'as': sig, 'replaced_by_call': call})
     # all splices are anchored in the same text (the body after the R-rules) and applied back to front
     degraded = []
     edits = []   # (start, end, replacement)
@@ -859,7 +947,7 @@ def render_extract(ex, vac=False, strip_proof=False):
     if ex.attrs:
         prefix = prefix + ''.join(a + '\n' for a in ex.attrs)
         log.append({'rule': 'R7', 'attrs': ex.attrs})
-    return prefix + hdr + ctext + (' ' if not ctext else '') + body + '\n', log, meta
+    return prefix + hdr + ctext + (' ' if not ctext else '') + body + '\n' + lifted_fn_text, log, meta
 
 
 LABEL_RE = re.compile(r'//#\s*([A-Za-z0-9_.\-]+)')
@@ -1011,10 +1099,15 @@ def classify(gen, res):
                 lines.append((ln, s.get('label'), s.get('is_primary')))
         labs = []
         for s in spans:
-            # label: look only at the first line of each span (clause line)
-            ln = s['line_start']
-            if ln in labels and labels[ln] not in labs:
-                labs.append(labels[ln])
+            lab_txt = s.get('label') or ''
+            if 'at the end of the function body' in lab_txt or 'at this exit' in lab_txt:
+                continue   # body / exit spans cover many clauses
+            # a clause may span several lines; its label may sit on any of them
+            if s['line_end'] - s['line_start'] > 40:
+                continue
+            for ln in range(s['line_start'], s['line_end'] + 1):
+                if ln in labels and labels[ln] not in labs:
+                    labs.append(labels[ln])
         reg = None
         for s in prim + spans:
             reg = region_of(s['line_start'])
